@@ -3,3 +3,5 @@ extern crate alloc;
 pub mod util;
 #[cfg(kani)]
 mod c06;
+#[cfg(kani)]
+mod c13;
